@@ -432,6 +432,106 @@ func c05Recovery(cons string, n int, seed int64, prefixSteps int) (*c05Rec, erro
 	return res, nil
 }
 
+// c05HeldCert: a replica that is one view behind the certificate it holds (advanceView moves one view per
+// certificate) must still be able to get out with its own timeout. n=4. Views 1-2 run cleanly; the view-3 proposal
+// misses replica 3 and all view-3 votes are lost; replicas 1, 2, 4 give up on view 3 (replica 3 is still in view 2),
+// only replica 4 receives the three timeouts, assembles TC(3), sends its new-view (TC(3), QC(2)) to replica 3, the
+// leader of view 4, and crashes. Replica 3 steps into view 3 holding TC(3). Then the network is synchronous among
+// 1, 2, 3 (every one of them is needed for a quorum): replica 3's timeout for view 3 carries TC(3) and takes
+// everybody to view 4.
+func c05HeldCert(cons string, seed int64) (*c05Rec, error) {
+	spec := wSpec{consensus: cons, n: 4, seed: seed}
+	spec.leaders = wLeaders{1, 2, 1, 3}
+	for i := 0; i < 400; i++ {
+		spec.leaders = append(spec.leaders, hotstuff.ID(i%3+1))
+	}
+	w, err := newWorld(spec)
+	if err != nil {
+		return nil, err
+	}
+	h := newC01Hist(w, spec)
+	res := &c05Rec{hist: h, newCommits: map[hotstuff.ID]int{}, crashed: []hotstuff.ID{4}}
+	for _, id := range w.order {
+		w.partition[id] = 0
+	}
+	node := func(id hotstuff.ID) *wNode { return w.nodes[NodeID{ReplicaID: id}] }
+	viewOf := func(m wMsg) hotstuff.View {
+		switch p := m.payload.(type) {
+		case hotstuff.ProposeMsg:
+			return p.Block.View()
+		case hotstuff.VoteMsg:
+			if b, ok := w.blocks[p.PartialCert.BlockHash()]; ok {
+				return b.View()
+			}
+		case hotstuff.TimeoutMsg:
+			return p.View
+		}
+		return 0
+	}
+	w.start()
+	for _, id := range w.order {
+		h.observe(w.nodes[id])
+	}
+	// views 1, 2 in full; of view 3 only the proposal, and not to replica 3
+	for i := 0; i < 5000 && h.deliverOne(func(m wMsg) bool {
+		v := viewOf(m)
+		if v >= 3 {
+			_, isProp := m.payload.(hotstuff.ProposeMsg)
+			return isProp && v == 3 && m.to.ReplicaID != 3
+		}
+		return true
+	}); i++ {
+	}
+	// 1, 2, 4 give up on view 3, 3 on view 2; only replica 4 hears the timeouts
+	for _, id := range []hotstuff.ID{1, 2, 4, 3} {
+		nd := node(id)
+		nd.eventLoop.AddEvent(hotstuff.TimeoutEvent{View: nd.viewStates.View()})
+		w.drain(nd)
+		h.observe(nd)
+	}
+	// deliver the first pending message the filter selects and keep the others in flight
+	deliverKeep := func(filter func(m wMsg) bool) bool {
+		for i, m := range w.pending {
+			if !filter(m) {
+				continue
+			}
+			w.pending = append(append([]wMsg{}, w.pending[:i]...), w.pending[i+1:]...)
+			to := w.nodes[m.to]
+			to.eventLoop.AddEvent(m.payload)
+			w.drain(to)
+			h.observe(to)
+			return true
+		}
+		return false
+	}
+	for i := 0; i < 5000 && deliverKeep(func(m wMsg) bool {
+		_, isT := m.payload.(hotstuff.TimeoutMsg)
+		return isT && m.to.ReplicaID == 4
+	}); i++ {
+	}
+	// replica 4's new-view for view 4 reaches replica 3; everything else in flight is lost; replica 4 crashes
+	for i := 0; i < 5000 && deliverKeep(func(m wMsg) bool {
+		_, isNV := m.payload.(hotstuff.NewViewMsg)
+		return isNV && m.from.ReplicaID == 4 && m.to.ReplicaID == 3
+	}); i++ {
+	}
+	w.pending = nil
+	w.crashed[NodeID{ReplicaID: 4}] = true
+	live := []*wNode{node(1), node(2), node(3)}
+	for _, nd := range live {
+		tcv := int64(-1)
+		if tc, ok := nd.viewStates.SyncInfo().TC(); ok {
+			tcv = int64(tc.View())
+		}
+		res.detail += fmt.Sprintf("[before the suffix: replica %d view %d highTC %d] ", nd.id.ReplicaID, nd.viewStates.View(), tcv)
+	}
+	pre := res.detail
+	res.idleTimersOnly = true
+	c05Suffix(h, live, cons, res)
+	res.detail = pre + res.detail
+	return res, nil
+}
+
 // c05RealTimers: the replicas' own view timers (not the scripts' TimeoutEvents) must bring a quorum back after a
 // loss that outlasts several timeouts. Four honest replicas with a real 20 ms view timer; phase 1: every message
 // is lost for 8 timer periods (each replica gives up on view 1 repeatedly); phase 2: the network is synchronous.
@@ -631,6 +731,24 @@ func TestVerifC05(t *testing.T) {
 				}
 			}
 		}
+	}
+	// 3b. a replica one view behind the certificate it holds, needed for every quorum
+	for _, cons := range []string{"chainedhotstuff", "simplehotstuff"} {
+		res, err := c05HeldCert(cons, v.seed)
+		if err != nil {
+			t.Fatalf("world: %v", err)
+		}
+		meta := map[string]any{"kind": "held-certificate", "consensus": cons, "n": 4, "crashed": res.crashed, "state": res.detail,
+			"view_spread": res.spread, "rounds": res.rounds, "new_commits": res.newCommits, "prefix_commits": res.prefixCommits}
+		v.Note("held-certificate " + cons + ": " + res.detail)
+		v.Seen("held-cert/"+cons, true, meta)
+		v.Count("held_cert_" + cons)
+		if res.oracle != "" {
+			v.Oracle(false, res.oracle+":held-certificate:"+cons, res.detail, meta)
+		} else {
+			v.Oracle(true, "", "", nil)
+		}
+		emitHist(cons, 4, res.hist, meta)
 	}
 	// 4. the replicas' own view timers: loss outlasting several timeouts, then synchrony (chained and simple; the
 	// fasthotstuff liveness findings are reported by the fault-free runs above)
